@@ -220,6 +220,8 @@ def run(tier, seed):
     rng = ck.rng
     n = 40 if tier == "quick" else 500
     cs = cases(rng, n)
+    # the edge proved in Coq (enumerate_last_index_overflow_refuted): only the index AFTER the last element overflows
+    cs.append(("enumerate@i64max", 'lists.enumerate{start=9223372036854775807, step=1, list=["a"]}', [[9223372036854775807, "a"]]))
     root = os.path.join(C.scratch_root(), "c19-%d" % os.getpid())
     shutil.rmtree(root, ignore_errors=True)
     os.makedirs(root)
@@ -235,6 +237,9 @@ def run(tier, seed):
     for i, ((name, expr, want), (rc, out, err)) in enumerate(zip(cs, results)):
         per.setdefault(name, [0, 0])
         per[name][0] += 1
+        if rc != 0 and name == "enumerate@i64max" and "overflow" in err and ck.is_known("C19-enumerate-last-index"):
+            ck.known_finding("C19-enumerate-last-index", "lists.enumerate fails when start + len*step overflows although every index of the result fits (%s)" % expr)
+            continue
         if rc != 0:
             real.append({"helper": name, "call": expr, "why": "build failed: " + err[-300:], "expected": want})
             per[name][1] += 1
